@@ -107,6 +107,55 @@ Theorem C18_same_for_all_components :
 Proof. exact registry_round_trip. Qed.
 Print Assumptions C18_same_for_all_components.
 
+(* 8. The usable nodes -- all allocated ones, or with backup nodes those that
+   answer the probe (accessible) -- are what the pilot works with.
+   (a) _filter_nodes itself, on ANY node list (names arbitrary, also all equal
+   as under Fork; any probe outcome per position): offered + reserved nodes
+   are, up to order, a sub-sequence of the usable nodes (so each node at most
+   once, no unusable and no foreign node) of exactly min(requested, usable)
+   length. *)
+Theorem C18_filter_nodes_offers_usable :
+  forall c acc r0 r, filter_nodes c acc r0 = inr r ->
+    exists L, Permutation.Permutation (all_nodes r) L
+      /\ subl L (accessible (r_backup r0) acc (r_nodes r0))
+      /\ (0 <= r_req_nodes r0 ->
+          zlen L = Z.min (r_req_nodes r0) (zlen (accessible (r_backup r0) acc (r_nodes r0)))).
+Proof. exact filter_nodes_offers. Qed.
+Print Assumptions C18_filter_nodes_offers_usable.
+
+(* (b) it does not fail while enough usable nodes exist: one per node-bound
+   sub-agent, one for services, one to offer (needed c) *)
+Theorem C18_filter_nodes_succeeds_when_enough :
+  forall c acc r0, 0 <= r_req_nodes r0 ->
+    needed c <= Z.min (r_req_nodes r0) (zlen (accessible (r_backup r0) acc (r_nodes r0))) ->
+    exists r, filter_nodes c acc r0 = inr r.
+Proof. exact filter_nodes_enough. Qed.
+Print Assumptions C18_filter_nodes_succeeds_when_enough.
+
+(* (c) the same for the whole constructor, r0 being the allocation as the
+   resource manager read it (pre_filter) *)
+Theorem C18_offers_requested_accessible_nodes :
+  forall c e acc r0 r, pre_filter c e = inr r0 -> rm_construct c e acc = inr r ->
+    (forall n, In n (all_nodes r) -> In n (accessible (r_backup r0) acc (r_nodes r0)))
+    /\ (0 <= r_req_nodes r ->
+        zlen (all_nodes r) = Z.min (r_req_nodes r) (zlen (accessible (r_backup r0) acc (r_nodes r0)))).
+Proof. exact (fun c e acc r0 r Hp H => offers_accessible c e acc r0 r Hp (construct_scratch c e acc r H)). Qed.
+Print Assumptions C18_offers_requested_accessible_nodes.
+
+Theorem C18_startup_fails_only_if_short :
+  forall c e acc r0, pre_filter c e = inr r0 -> scalars_ok r0 = true -> 0 <= r_req_nodes r0 ->
+    needed c <= Z.min (r_req_nodes r0) (zlen (accessible (r_backup r0) acc (r_nodes r0))) ->
+    exists r, rm_construct c e acc = inr r.
+Proof. exact startup_fails_only_if_short. Qed.
+Print Assumptions C18_startup_fails_only_if_short.
+
+(* the clause the harness evaluates on the implementation's outcome (success
+   or exception) is true of the model's outcome, whatever it is *)
+Theorem C18_oracle_accessible_on_model :
+  forall c e acc, ok_accessible c e acc (rm_construct c e acc) = true.
+Proof. exact oracle_ok_accessible. Qed.
+Print Assumptions C18_oracle_accessible_on_model.
+
 (* The boolean clauses the harness evaluates on the implementation's RMInfo
    are true of everything the model returns ... *)
 Theorem C18_oracle_holds_on_model :
@@ -148,6 +197,18 @@ Example C18_nonvacuous :
               r_req_nodes r, r_cpn r, map n_cores (r_nodes r), map n_index (all_nodes r))
              = (["h1"; "h3"]%string, ["h5"%string], ["h4"%string], 4, 3,
                 [[Down; Free; Free; Free]; [Down; Free; Free; Free]], [0; 2; 4; 3])
+  | inl _ => False
+  end.
+Proof. vm_compute. reflexivity. Qed.
+
+(* non-vacuity of 8: Fork (every node is localhost), 2 nodes requested, 1 backup
+   node, one sub-agent on a node, node 1 does not answer: nodes 0 and 2 are
+   used, node 2 goes to the sub-agent, node 0 is offered *)
+Example C18_nonvacuous_repeated_names :
+  let c := mkCfg 2 8 0 4 0 1 0 0 1 None None [] [] [true] false true in
+  match rm_construct c (EFork 8) [AccOk; AccFail; AccOk] with
+  | inr r => (map n_name (all_nodes r), map n_index (r_nodes r), map n_index (r_agents r))
+             = (["localhost"; "localhost"]%string, [0], [2])
   | inl _ => False
   end.
 Proof. vm_compute. reflexivity. Qed.
